@@ -335,10 +335,14 @@ class T:
                                                             "detail": "set-level proof not possible for this body (%s); the bounded structural check of this task stands in" % reason[:300]})
 
     def prove(self, clause, goal, assumptions=(), kind="ensures", replay=None, timeout_ms=None, use_pre=True,
-              tactic=None, retry=True):
-        """pre /\\ facts /\\ assumptions => goal."""
+              tactic=None, retry=True, needed=False):
+        """pre /\\ facts /\\ assumptions => goal.   needed=True: later clauses of the task build on this one's verdict, so under a
+        clause filter it is still decided (silently: not recorded among the dependency's obligations)."""
+        silent = False
         if self.clause_filter is not None and kind != "bounded" and not self.clause_filter.search(clause):
-            return None  # this task runs as a dependency of another property: only the clauses that property consumes
+            if not needed:
+                return None  # this task runs as a dependency of another property: only the clauses that property consumes
+            silent = True
         if isinstance(goal, bool):
             goal = z3.BoolVal(goal)
         base = (list(self.pre) if use_pre else []) + list(assumptions)
@@ -356,6 +360,18 @@ class T:
             # result): that is imprecision of the checker, not evidence against the code
             res = {"status": "unknown", "backend": res.get("backend"), "seconds": res.get("seconds"),
                    "detail": "counter-model depends on an over-approximated callee result (marker *_unknown!*): undecided"}
+        if res["status"] == "failed":
+            from . import numeval
+            if numeval.mentions_free_uf(asm + [goal]):
+                # the solver interprets log / exp / trig freely: its model is a counterexample only if the obligation also fails
+                # with the real functions (at the model's inputs or at sampled ones)
+                verdict, info = numeval.refute(asm, goal, res.get("_z3model"))
+                if verdict == "confirmed":
+                    res["numeric_counterexample"] = {k: (v if isinstance(v, (bool, int)) else float(v)) for k, v in info.items()}
+                    res["backend"] = "%s; failing input re-evaluated with the real log/exp/trig functions" % res.get("backend")
+                elif verdict == "spurious":
+                    res = {"status": "unknown", "backend": res.get("backend"), "seconds": res.get("seconds"),
+                           "detail": "the solver's counter-model interprets log/exp/trig freely and the obligation holds with the real functions at its inputs and at %s sampled inputs satisfying the assumptions: undecided" % info.get("assignments_satisfying_the_assumptions")}
         extra = {}
         big_model = res if res["status"] == "failed" else None
         if (res["status"] == "unknown" or (res["status"] == "failed" and self.finite is not None and self.finite.get("replay"))) and self.finite is not None:
@@ -383,6 +399,8 @@ class T:
                 res = big_model   # the solver's own counter-model stands; no small replayable instance was confirmed
         if res["status"] == "failed":
             extra["replay"] = self._make_replay(clause, res, replay)
+        if silent:
+            return dict(res)
         if len(self.samples) < 3:
             self.samples.append({"obligation": "%s/%s/%s" % (self.prop, self.name, clause),
                                  "goal_head": str(goal)[:300], "n_assumptions": len(asm)})
